@@ -109,6 +109,9 @@ class Module:
         self.enums = kw.get("enums", {})        # 'CacheScope' -> ['NONE', ...]
         self.consts = kw.get("consts", {})      # dotted text -> (sort, smt)
         self.classes = kw.get("classes", {})    # default var -> class
+        self.props = kw.get("props", {})        # property attribute -> handler(engine, obj, st, old)
+        self.defaultdicts = kw.get("defaultdicts", {})  # tracked Map attribute -> smt text of the default value
+        self.sortnames = kw.get("sortnames", {})
         self.skip_calls = kw.get("skip_calls", ["self.log", "logger.", "log.", "warnings.warn", "print"])
 
 
